@@ -325,6 +325,9 @@ pub struct Ctx {
     pub replaying: bool,
 }
 
+/// see `Ctx::size`
+pub const THOROUGH_FACTOR: u64 = 2;
+
 impl Ctx {
     pub fn quick(&self) -> bool {
         self.tier == Tier::Quick
@@ -335,7 +338,9 @@ impl Ctx {
             .ok()
             .and_then(|s| s.parse::<f64>().ok())
             .unwrap_or(1.0);
-        let base = if self.quick() { quick } else { thorough };
+        // (the thorough sizes written in the checks were doubled once all of them had been seen to stay well inside
+        // the watchdog: THOROUGH_FACTOR applies to every check alike)
+        let base = if self.quick() { quick } else { thorough.saturating_mul(THOROUGH_FACTOR) };
         ((base as f64) * scale).max(1.0) as u64
     }
 }
